@@ -73,8 +73,13 @@ def replay(fl, FA, clause, norm, vals):
     if not FA.and_(0 <= a <= 1, 0 <= b <= 1, 0 <= c <= 1):
         return {"failed": False, "skipped": "operands outside [0,1]"}
     if clause == "formula":
+        # the documented closed form, evaluated in doubles, or - where that evaluation is itself ill-conditioned (HamacherSum next to a*b = 1) - exactly, as a
+        # real number at the given doubles (exact rationals): the code must agree with one of the two
+        from pyvc.falg import QA
         exp, obs = ALL[norm](FA, a, b), T(a, b)
-        return {"failed": not close(exp, obs), "expected": float(exp), "observed": float(obs), "call": f"{norm}().compute({a!r}, {b!r})"}
+        exact = ALL[norm](QA, QA.c(a), QA.c(b))
+        ok = close(exp, obs) or (exact is not None and FA.same(float(exact), obs, rel=1e-9, abs_=1e-12))
+        return {"failed": not ok, "expected": float(exp) if exact is None else sorted({float(exp), float(exact)}), "observed": float(obs), "call": f"{norm}().compute({a!r}, {b!r})"}
     if clause == "range":
         obs = T(a, b)
         ok = (obs == a + b) if norm == "UnboundedSum" else bool(0 <= obs <= 1)
@@ -99,6 +104,8 @@ def replay(fl, FA, clause, norm, vals):
         ok = obs <= min(a, b) + 1e-12 if norm in TNORMS else obs >= max(a, b) - 1e-12
         return {"failed": not ok, "expected": "<= min(a,b)" if norm in TNORMS else ">= max(a,b)", "observed": float(obs), "call": f"{norm}: a={a!r} b={b!r}"}
     if clause == "dual":
+        if 1.0 - (1.0 - a) != a or 1.0 - (1.0 - b) != b:
+            return {"failed": False, "skipped": "the complement 1 - x of an operand is not exact in doubles (x < 0.5 in general): the duality is a statement about exact complements"}
         t = _mk(fl, DUAL[norm])
         exp = 1.0 - np.float64(t.compute(1.0 - a, 1.0 - b))
         obs = T(a, b)
@@ -132,4 +139,24 @@ def replay(fl, FA, clause, norm, vals):
                     if r.get("failed"):
                         return r
         return replay(fl, FA, "elementwise", norm, {"a": 0.3, "b": 0.6, "c": 1.0})
+    if clause == "sampled":
+        # random doubles, the exact dyadic grid k/64, and complement pairs (x, 1 - x) - the arguments at which a + b rounds to exactly 1 - with every
+        # clause of the property; then the "all" grid and the array forms
+        import random
+        rng = random.Random(int(vals.get("seed", 0)))
+        n_ = int(vals.get("n", 300))
+        pts = []
+        for _ in range(n_):
+            x = rng.random() if rng.random() < 0.5 else rng.randrange(0, 101) / 100.0
+            pts.append((x, 1.0 - x)); pts.append((1.0 - x, x))
+            pts.append((rng.random(), rng.random()))
+            pts.append((rng.randrange(0, 65) / 64.0, rng.randrange(0, 65) / 64.0))
+        clauses = ["formula", "range"] + ([] if norm == "UnboundedSum" else ["comm", "bound", "mono"]) + (["dual"] if norm in DUAL else [])
+        for (u, v) in pts:
+            for cl in clauses:
+                r = replay(fl, FA, cl, norm, {"a": u, "b": v, "c": rng.random()})
+                if r.get("failed"):
+                    return r
+        r = replay(fl, FA, "all", norm, {})
+        return r if r.get("failed") else {"failed": False, "cases": len(pts) * len(clauses) + 256}
     raise KeyError(clause)
